@@ -1,5 +1,6 @@
 import Wl2kVerif.Ops.Basic
 import Wl2kVerif.B2F.Pair
+import Wl2kVerif.B2F.InGrammar
 namespace Wl2k.Ops.Session
 open Wl2k Wl2k.Ops Wl2k.B2F
 
@@ -103,6 +104,88 @@ def session : Handler := fun args =>
     let (ended, rest, _, evs) := Proc.run hstep (exchange p.cfg fuel) p.input p.h []
     showResult p.ihash ended rest evs
 
+/-! ### the input grammar on real conversations (`accepts_grammar`, Props/C05_accept.lean)
+
+`sessiongram` takes the arguments of `session`, cuts the remote's byte stream into a script of units (text lines,
+transfer frames) + an unfinished tail, checks that the script renders back to exactly the input, runs the session
+model, and evaluates `InGrammar.conforms` on the model's own writes - i.e. it decides the HYPOTHESIS of
+`accepts_grammar` for this conversation. The grammar's description of the local side is taken from the handler of
+the case: `msgOK` is "everything" when the handler never fails to parse or store, "nothing" otherwise; `secure` only
+when a callback is configured and knows the account password. The harness then holds the REAL Exchange to the
+theorem's conclusion: conf=1 must not meet a protocol error. -/
+
+open Wl2k.B2F.InGrammar in
+def tokBlocks : Nat → Bytes → List Bytes → Option (List Bytes × UInt8 × Bytes)
+  | 0, _, _ => none
+  | fuel + 1, inp, acc =>
+    match inp with
+    | 2 :: l :: rest =>
+      let n := if l = 0 then 256 else l.toNat
+      if rest.length < n then none else tokBlocks fuel (rest.drop n) (acc ++ [rest.take n])
+    | 4 :: ck :: rest => some (acc, ck, rest)
+    | _ => none
+
+open Wl2k.B2F.InGrammar in
+/-- a frame with the offset field "0" at the head of the input -/
+def tokFrame (inp : Bytes) : Option (RUnit × Bytes) :=
+  match inp with
+  | 1 :: _ :: rest =>
+    let title := rest.takeWhile (· ≠ 0)
+    match rest.drop title.length with
+    | 0 :: 48 :: 0 :: blocks =>
+      (tokBlocks (blocks.length + 1) blocks []).map fun (chunks, ck, r) => (.frame title chunks ck, r)
+    | _ => none
+  | _ => none
+
+def splitCR : Bytes → Bytes → Option (Bytes × Bytes)
+  | [], _ => none
+  | b :: t, acc => if b = 13 then some (acc.reverse, t) else splitCR t (b :: acc)
+
+open Wl2k.B2F.InGrammar in
+def tokenize : Nat → Bytes → List RUnit → List RUnit × Bytes
+  | 0, inp, acc => (acc.reverse, inp)
+  | fuel + 1, inp, acc =>
+    match inp with
+    | [] => (acc.reverse, [])
+    | 1 :: _ =>
+      (match tokFrame inp with
+       | some (u, rest) => tokenize fuel rest (u :: acc)
+       | none => (acc.reverse, inp))
+    | _ =>
+      (match splitCR inp [] with
+       | some (line, rest) => tokenize fuel rest (.line line :: acc)
+       | none => (acc.reverse, inp))
+
+open Wl2k.B2F.InGrammar in
+def sessiongram : Handler := fun args =>
+  match parseArgs args with
+  | none => "bad-op"
+  | some p =>
+    let fuel := p.input.length + 64
+    let (ended, _, _, evs) := Proc.run hstep (exchange p.cfg fuel) p.input p.h []
+    let ws := evs.reverse.filterMap fun e => match e with | .wrote bs => some bs | _ => none
+    -- the theorem's hypotheses on the LOCAL side, decided for this case (CfgOK holds for the default constants;
+    -- HsOK and HandlerOK as Bool: same predicates as Proofs/EmitHs.lean / EmitWalk.lean)
+    let pr (b : UInt8) : Bool := Grammar.isPrint b
+    let hsOK := p.cfg.motd.all (fun l => l.all pr && l.getLast? != some 62 && l.head? != some 59 && l.head? != some 91 && l.head? != some 42) &&
+      !p.cfg.hs.localFW.isEmpty && p.cfg.hs.localFW.all Grammar.isAddr &&
+      p.cfg.hs.uaName.all (fun b => pr b && b != 91 && b != 93) && p.cfg.hs.uaVersion.all (fun b => pr b && b != 91 && b != 93) &&
+      Grammar.isCall p.cfg.hs.mycall && Grammar.isCall p.cfg.hs.targetcall && p.cfg.hs.locator.all Grammar.isAlnum
+    let outOK := p.h.outbox.all (fun m => !m.valid || (Grammar.isMid m.mid && !m.qtitle.isEmpty && m.qtitle.all pr && m.qtitle.length ≤ 247)) &&
+      p.h.policy.all (fun (_, a) => a == 43 || a == 45 || a == 61)
+    let handlerOK := hsOK && outOK && !p.h.prepareFails && p.h.failAt.isNone && p.h.parseErr.all (· == 0) && p.h.batchedShort.isNone
+    let secure := p.cfg.hs.hasCb && (match p.h.passwords with | (_, e) :: _ => !e | [] => false)
+    let g : InCfg := { master := p.cfg.hs.master, secure := secure, msgOK := fun _ => handlerOK }
+    let (script, tail) := tokenize (p.input.length + 1) p.input []
+    let okTok := render script ++ tail == p.input
+    let conf := handlerOK && p.cfg.hasHandler && okTok && conforms g ws script tail
+    let cls := match ended with
+      | .done r => showClass r.err
+      | .panicked s => if s == "fuel" then "fuel" else "panic"
+      | .blocked => "blocked"
+    "conf=" ++ (if conf then "1" else "0") ++ " tok=" ++ (if okTok then "1" else "0") ++ " units=" ++ toString script.length ++
+      " tail=" ++ toString tail.length ++ " err=" ++ cls
+
 def lim (s : String) : Option Nat := if s == "-" then none else s.toNat?
 
 /-- pair <20 fields side A> <20 fields side B> limA limB -/
@@ -130,7 +213,7 @@ def sortprops : Handler := fun a =>
   | none => "bad-op"
 
 def ops : List (String × Handler) := [
-  ("session", session), ("pair", pair), ("sortprops", sortprops),
+  ("session", session), ("sessiongram", sessiongram), ("pair", pair), ("sortprops", sortprops),
   ("cleanstr", fun a => match allBytes a with | some [s] => toHexField (cleanString s) | _ => "bad-op"),
   ("errline", fun a => match allBytes a with
     | some [s] => (match errLine s with | some m => "err " ++ toHexField m | none => "nil") | _ => "bad-op"),
